@@ -39,6 +39,13 @@ open Dora.X64.Sem Dora.Masm
   apply BitVec.eq_of_toNat_eq; simp [lo32]
 @[simp] theorem lo8_setWidth32 (v : BitVec 32) : lo8 (v.setWidth 64) = v.setWidth 8 := by simp [lo8]
 
+/-- a non-negative immediate below 2^63 is accepted by `movq_ri` (no evaluation of the comparison on a symbolic value) -/
+theorem fitsI64_natCast (n : Nat) (h : n < 9223372036854775808) : fitsI64 (n : Int) = true := by
+  simp only [fitsI64, Bool.and_eq_true, decide_eq_true_eq]; omega
+
+/-- `i64::MIN` (the immediate of `div_common`) is accepted -/
+@[simp] theorem fitsI64_min : fitsI64 (-9223372036854775808) = true := by decide
+
 theorem bne_true {a b : Reg} (h : a ≠ b) : (a != b) = true := by simpa using h
 
 /-! ## running a list -/
@@ -63,7 +70,11 @@ theorem run_succ (prog : List Instr) (fuel pc : Nat) (s : State) :
       | .trap s' => .trap (lo32 (s'.get rdi)).toNat s'
       | .de s' => .de s'
       | .done s' => .done s'
-      | .bad w => .bad w := rfl
+      | .bad w => .bad w := by
+  -- deliberately NOT a `rfl`-lemma: `simp` must record this step as a rewrite; as a definitional step the kernel would
+  -- re-evaluate `step` itself and, for a symbolic immediate, unfold `Nat.sub n 2^63` (deep recursion)
+  conv => lhs; unfold run
+  rfl
 
 /-- symbolic execution of an explicit instruction list: unfolds `exec`/`run`/`step` and the flag computations of the
     arithmetic instructions, keeps the shift and division operations folded (they have their own lemmas) -/
